@@ -383,4 +383,23 @@ MUTANTS += [
                ("src/surface.rs", _SURF_CLEAR, "        let shape = self.shape();\n        let data = self.data_mut();\n        for row in 0..shape.height {\n            for col in 0..shape.width {\n                if row != col {\n                    data[shape.offset(Position::new(row, col))] = Default::default();\n                }\n            }\n        }\n")]},
     {"id": "C01-clear-front-surface-clear-instead-of-back", "prop": "C01", "expect": "R1-CLEAR/render::TerminalRenderer::clear/",
      "edits": [("src/render.rs", "        self.back.fill(Cell::default());\n\n        Ok(())", "        self.front.clear();\n\n        Ok(())")]},
+    # ---- R2: the mark is chosen in an extracted helper / forwarded through temporaries (decided where the value is chosen) ------------
+    {"id": "C01-benign-new-initial-mark-helper", "prop": "C01", "benign": True,
+     "edits": [(R_, _NEW_MARK, "        fn initial_mark(clear: bool) -> CellMark {\n            if clear {\n                return CellMark::Damaged;\n            }\n            CellMark::Empty\n        }\n        let mark = initial_mark(clear);\n")]},
+    {"id": "C01-benign-new-initial-mark-helper-match-keep", "prop": "C01", "benign": True,
+     "edits": [(R_, _NEW_MARK, "        fn initial_mark(keep: bool) -> CellMark {\n            match keep {\n                true => CellMark::Empty,\n                false => CellMark::Damaged,\n            }\n        }\n        let keep = !clear;\n        let mark = initial_mark(keep);\n")]},
+    {"id": "C01-benign-new-mark-forwarded", "prop": "C01", "benign": True,
+     "edits": [(R_, _NEW_MARK, "        let chosen = if clear {\n            CellMark::Damaged\n        } else {\n            CellMark::Empty\n        };\n        let initial = chosen;\n        let mark = initial;\n")]},
+    {"id": "C01-new-initial-mark-helper-negated-arg", "prop": "C01", "expect": "R2-NEW",
+     "edits": [(R_, _NEW_MARK, "        fn initial_mark(clear: bool) -> CellMark {\n            if clear {\n                return CellMark::Damaged;\n            }\n            CellMark::Empty\n        }\n        let mark = initial_mark(!clear);\n")]},
+    {"id": "C01-new-initial-mark-helper-swapped", "prop": "C01", "expect": "R2-NEW",
+     "edits": [(R_, _NEW_MARK, "        fn initial_mark(clear: bool) -> CellMark {\n            if clear {\n                return CellMark::Empty;\n            }\n            CellMark::Damaged\n        }\n        let mark = initial_mark(clear);\n")]},
+    {"id": "C01-new-mark-forwarded-ignored", "prop": "C01", "expect": "R2-NEW",
+     "edits": [(R_, _NEW_MARK, "        let chosen = if clear {\n            CellMark::Ignored\n        } else {\n            CellMark::Empty\n        };\n        let mark = chosen;\n")]},
+    {"id": "C01-benign-new-mark-overwritten-when-clear", "prop": "C01", "benign": True,
+     "edits": [(R_, _NEW_MARK, "        let mut mark = CellMark::Empty;\n        if clear {\n            mark = CellMark::Damaged;\n        }\n")]},
+    {"id": "C01-new-mark-overwritten-when-not-clear", "prop": "C01", "expect": "R2-NEW",
+     "edits": [(R_, _NEW_MARK, "        let mut mark = CellMark::Damaged;\n        if clear {\n            mark = CellMark::Empty;\n        }\n")]},
+    {"id": "C01-new-mark-overwritten-after-choice", "prop": "C01", "expect": "R2-NEW",
+     "edits": [(R_, _NEW_MARK, "        let mut mark = CellMark::Empty;\n        if clear {\n            mark = CellMark::Damaged;\n        }\n        if size.cells.height > 0 {\n            mark = CellMark::Empty;\n        }\n")]},
 ]
